@@ -163,7 +163,7 @@ impl DefaultMetricLogWriter {
             |filename: &str, p: &str| -> bool { filename.contains(p) },
         )?;
         if list.is_empty() {
-            return Ok(self.base_dir.to_str().unwrap().to_owned() + &file_pattern);
+            return Ok(self.base_dir.join(&file_pattern).to_str().unwrap().to_owned());
         }
         // Find files with the same prefix pattern, have to add the order to separate files.
         let last = &list[list.len() - 1];
@@ -173,9 +173,8 @@ impl DefaultMetricLogWriter {
             n = str::parse::<u32>(items[items.len() - 1]).unwrap_or(0);
         }
         return Ok(format!(
-            "{}{}.{}",
-            self.base_dir.to_str().unwrap().to_owned(),
-            file_pattern,
+            "{}.{}",
+            self.base_dir.join(&file_pattern).to_str().unwrap(),
             n + 1
         ));
     }
